@@ -144,6 +144,11 @@ func (sh *SessionHandler) rpcFormContract(s *session, log *zap.Logger) (contract
 		err := errors.New("unsupported renter key algorithm")
 		s.t.WriteResponseErr(err)
 		return contracts.Usage{}, err
+	} else if len(req.RenterKey.Key) != ed25519.PublicKeySize {
+		// the conversion below panics on a shorter key
+		err := errors.New("invalid renter key length")
+		s.t.WriteResponseErr(err)
+		return contracts.Usage{}, err
 	}
 	renterPub := *(*types.PublicKey)(req.RenterKey.Key)
 	// get the host's public key, current block height, and settings
